@@ -355,17 +355,11 @@ def run(ctx, model_ok=True):
             c = dict(kind="split", rp=rp, kw={"record_provenance": rp}, extra={}, bad=None)
         exc = ots = None
         try:
-            if c["kind"] == "dating":
-                ots = call_dating(ts, c)
-            elif c["kind"] == "preprocess":
-                kw = dict(c["kw"])
-                kw.update(c["extra"])
-                ots = tsdate.preprocess_ts(ts, **kw)
-            else:
-                ots = tsdate.util.split_disjoint_nodes(ts, **c["kw"])
+            ots = run_call(ts, c)
         except Exception as e:   # noqa: BLE001
             exc = e
-        payload = {"call": describe(c), "earlier_records": ts.num_provenances, "tables": G.gen.ts_tables_dict(ts)}
+        payload = {"call": describe(c), "earlier_records": ts.num_provenances,
+                   "replay": {"tables": G.tc_to_json(ts.dump_tables()), "c": G.plain({k: v for k, v in c.items()})}}
         recording = c["rp"] is None or c["rp"] is True
         ctx.case(describe(c), nontrivial=recording,
                  kind="%s/%s/%s" % (c["kind"], "rec" if recording else "norec",
@@ -373,10 +367,11 @@ def run(ctx, model_ok=True):
         oracle(ctx, c, ts, ots, exc, payload)
         cases.append((c, ts, ots, exc, payload))
     if model_ok:
-        body = "From Coq Require Import String.\nDefinition cases := %s.\nEval vm_compute in cases.\n" % clist(
-            [model_term(c, prov_rows(ts), V) for c, ts, _o, _e, _p in cases])
-        # interning is complete only after all terms are built; build impl shapes afterwards with the same V
-        model = ctx.coq_eval(body, requires=("model.Glue",), tag="prov")[0]
+        model = []
+        for i in range(0, len(cases), 300):
+            body = "From Coq Require Import String.\nDefinition cases := %s.\nEval vm_compute in cases.\n" % clist(
+                [model_term(c, prov_rows(ts), V) for c, ts, _o, _e, _p in cases[i:i + 300]])
+            model += ctx.coq_eval(body, requires=("model.Glue",), tag="prov")[0]
         for (c, ts, ots, exc, payload), m in zip(cases, model):
             m = norm_model(m)
             if exc is not None:
@@ -394,7 +389,35 @@ def search(ctx):
     run(ctx, model_ok=False)
 
 
+def run_call(ts, c):
+    import tsdate
+    if c["kind"] == "dating":
+        return call_dating(ts, c)
+    if c["kind"] == "preprocess":
+        kw = dict(c["kw"])
+        kw.update(c["extra"])
+        return tsdate.preprocess_ts(ts, **kw)
+    return tsdate.util.split_disjoint_nodes(ts, **c["kw"])
+
+
 def replay(ctx, data):
-    print(json.dumps(data.get("case", {}).get("call"), indent=1))
-    print(data.get("detail"))
-    return False
+    """re-run one saved call; True iff exactly one valid record with the right parameters is added"""
+    G.quiet_logging()
+    case = data.get("case") or {}
+    r = case.get("replay")
+    if not r:
+        print(json.dumps(case, indent=1)[:3000])
+        return False
+    ts = G.tc_from_json(r["tables"]).tree_sequence()
+    c = G.unplain(r["c"])
+    exc = ots = None
+    try:
+        ots = run_call(ts, c)
+    except Exception as e:   # noqa: BLE001
+        exc = e
+    oracle(ctx, c, ts, ots, exc, case)
+    for sig, detail, _r in ctx.oracle_fails:
+        print("property fails:", sig, detail)
+    for f, sig in ctx.known_hits:
+        print("property fails (known finding %s):" % f.get("id"), sig)
+    return not ctx.oracle_fails and not ctx.known_hits
